@@ -11,8 +11,10 @@ package main
 // complete exactly when neither of those two things happens. This rule
 // decides that: in every function of the package (the SSA form, so that it
 // holds whatever the syntax), no instruction loads, stores, copies or passes a
-// value whose type holds a math/big.Int BY VALUE, and no call resolves to
-// (*big.Int).Bits or (*big.Int).SetBits.
+// value whose type holds a math/big.Int BY VALUE, no (*big.Int).SetBits adopts
+// a word slice that was not made in the calling function, and the slice that
+// (*big.Int).Bits returns is only read (indexed, measured), never stored,
+// passed on or re-sliced.
 
 import (
 	"fmt"
@@ -142,7 +144,18 @@ func runC06Words(k *gctx, prog *ssa.Program) {
 					if callee := cc.Common().StaticCallee(); callee != nil {
 						if o, _ := callee.Object().(*types.Func); o != nil && o.Pkg() != nil && o.Pkg().Path() == "math/big" && (o.Name() == "Bits" || o.Name() == "SetBits") {
 							if sig, _ := o.Type().(*types.Signature); sig != nil && sig.Recv() != nil {
-								report(ins.Pos(), "calls (*big.Int)."+o.Name()+", which exposes or adopts the word slice itself")
+								switch o.Name() {
+								case "SetBits":
+									// adopting a slice made here is not sharing; adopting anything else may be
+									if args := cc.Common().Args; len(args) == 2 && !wordsFresh(args[1], map[ssa.Value]bool{}) {
+										report(ins.Pos(), "calls (*big.Int).SetBits with a word slice that was not made in this function: the receiver adopts that backing array")
+									}
+								case "Bits":
+									// reading the words is harmless; letting the slice go anywhere else is not
+									if v, ok := ins.(ssa.Value); ok && !wordsOnlyRead(v) {
+										report(ins.Pos(), "the word slice returned by (*big.Int).Bits is stored, passed on or re-sliced: it aliases the receiver's digits")
+									}
+								}
 							}
 						}
 					}
@@ -156,11 +169,74 @@ func runC06Words(k *gctx, prog *ssa.Program) {
 			}
 		}
 	}
-	claim := "no function of lib/interval copies a math/big.Int by value or touches its word slice through Bits / SetBits; together with math/big's own contract this makes distinct *big.Int pointers (what fresh.result tracks) own distinct digits"
+	claim := "no function of lib/interval copies a math/big.Int by value, hands a foreign word slice to SetBits, or lets the slice returned by Bits escape; together with math/big's own contract this makes distinct *big.Int pointers (what fresh.result tracks) own distinct digits"
 	if len(bad) > 0 {
 		c.Fail("fresh.words", relInterval, claim, ninstr, strings.Join(bad, "\n"))
 	} else {
 		c.Pass("fresh.words", relInterval, claim, ninstr, fmt.Sprintf("%d functions, %d SSA instructions, %d calls examined", len(fns), ninstr, ncalls))
 	}
 	c.Floor("fresh.words", "functions of lib/interval examined instruction by instruction", len(fns), 45)
+}
+
+// wordsFresh: v is a []big.Word made in this function (make, a slice of a
+// local array, nil, or a phi / re-slice / append of such).
+func wordsFresh(v ssa.Value, seen map[ssa.Value]bool) bool {
+	if seen[v] {
+		return true
+	}
+	seen[v] = true
+	switch x := v.(type) {
+	case *ssa.MakeSlice:
+		return true
+	case *ssa.Const:
+		return x.Value == nil
+	case *ssa.Slice:
+		if a, ok := x.X.(*ssa.Alloc); ok {
+			_ = a
+			return true
+		}
+		return wordsFresh(x.X, seen)
+	case *ssa.Phi:
+		for _, e := range x.Edges {
+			if !wordsFresh(e, seen) {
+				return false
+			}
+		}
+		return true
+	case *ssa.Call:
+		if b, ok := x.Call.Value.(*ssa.Builtin); ok && b.Name() == "append" && len(x.Call.Args) > 0 {
+			return wordsFresh(x.Call.Args[0], seen)
+		}
+	case *ssa.ChangeType:
+		return wordsFresh(x.X, seen)
+	}
+	return false
+}
+
+// wordsOnlyRead: every use of the slice v reads an element or its length.
+func wordsOnlyRead(v ssa.Value) bool {
+	refs := v.Referrers()
+	if refs == nil {
+		return false
+	}
+	for _, r := range *refs {
+		switch x := r.(type) {
+		case *ssa.IndexAddr:
+			if ir := x.Referrers(); ir != nil {
+				for _, u := range *ir {
+					if un, ok := u.(*ssa.UnOp); !ok || un.Op != token.MUL {
+						return false
+					}
+				}
+			}
+		case *ssa.Call:
+			if b, ok := x.Call.Value.(*ssa.Builtin); !ok || (b.Name() != "len" && b.Name() != "cap") {
+				return false
+			}
+		case *ssa.Range, *ssa.DebugRef:
+		default:
+			return false
+		}
+	}
+	return true
 }
